@@ -18,7 +18,7 @@ struct Stmt {
   bool phony = false;
   std::vector<std::string> outs;  // explicit then implicit outputs (declared + dyndep-provided are in spec)
   std::vector<std::string> ex, im, oo, val;  // declared inputs by kind, validations
-  std::string cmd;
+  std::string cmd, desc;
   CmdSpec spec;                   // parsed from cmd: the command's true behaviour
   std::string rule;               // rule name in the manifest ("phony" for phony statements)
   std::string pool;               // "" = default, "console", or a named pool
